@@ -71,6 +71,10 @@ def check(ctx, tier):
     obs += ctx.attempt(lambda c, cl: count.class_iteration_agreement(c, cl)[0], ctx, "D-h", default=[])
     obs += ctx.attempt(lambda c, cl: mergetable.invariants(c, cl, which=('one-per-key', 'figures'))[0], ctx, "D-i", default=[])
     obs += ctx.attempt(loops.every_yielded_item_is_kept, ctx, "D-j", "shexer.core.shexing.class_shexer:ClassShexer._build_shapes", "shape", default=[])
+    o_ann = ctx.attempt(twin.annotated_features_table, ctx, "D-j")       # a shape with only incoming features is not empty
+    obs += [o_ann] if o_ann is not None else []
+    from ..rules import profile as _profile2
+    obs += ctx.attempt(lambda c, cl: _profile2.shapes_tables(c, cl, ('monotone',))[0], ctx, "D-k", default=[])
     exceptions.apply(obs)
     floors = [Floor("threshold filter comparisons", len(tf.filters), 3), Floor("range-check comparisons", len(tf.range_checks), 2),
               Floor("functions that see the threshold", len(tf.tainted_funcs), 8), Floor("candidate construction sites", n_sites, 3)]
